@@ -3,20 +3,38 @@ package fake
 import (
 	"context"
 	"errors"
+	smithy "github.com/aws/smithy-go"
 	"strconv"
 	"strings"
 
+	ddb2 "github.com/aws/aws-sdk-go-v2/service/dynamodb"
+	types2 "github.com/aws/aws-sdk-go-v2/service/dynamodb/types"
 	"github.com/aws/aws-sdk-go/aws"
 	"github.com/aws/aws-sdk-go/aws/awserr"
 	"github.com/aws/aws-sdk-go/aws/request"
 	ddb1 "github.com/aws/aws-sdk-go/service/dynamodb"
-	ddb2 "github.com/aws/aws-sdk-go-v2/service/dynamodb"
-	types2 "github.com/aws/aws-sdk-go-v2/service/dynamodb/types"
 )
 
 // ---- SDK v1 client -------------------------------------------------------------------------------------------
 
 type DynamoV1 struct{ D *Dynamo }
+
+// typed1 / typed2 turn an injected service failure into the SDK's typed error (awserr.Error / smithy.APIError)
+func typed1(err error) error {
+	var ae *APIError
+	if errors.As(err, &ae) {
+		return awserr.New(ae.Code, "injected failure", nil)
+	}
+	return err
+}
+
+func typed2(err error) error {
+	var ae *APIError
+	if errors.As(err, &ae) {
+		return &smithy.GenericAPIError{Code: ae.Code, Message: "injected failure"}
+	}
+	return err
+}
 
 func names1(m map[string]*string) map[string]string {
 	out := map[string]string{}
@@ -52,7 +70,7 @@ func (c DynamoV1) GetItemWithContext(_ aws.Context, in *ddb1.GetItemInput, _ ...
 	}
 	it, err := c.D.Get(aws.StringValue(in.TableName), id, cr, aws.BoolValue(in.ConsistentRead))
 	if err != nil {
-		return nil, err
+		return nil, typed1(err)
 	}
 	if it == nil {
 		return &ddb1.GetItemOutput{}, nil
@@ -82,6 +100,9 @@ func (c DynamoV1) PutItemWithContext(_ aws.Context, in *ddb1.PutItemInput, _ ...
 	if errors.Is(err, ErrConditionalCheckFailed) {
 		return nil, awserr.New(ddb1.ErrCodeConditionalCheckFailedException, "The conditional request failed", nil)
 	}
+	if err = typed1(err); err != nil {
+		return nil, err
+	}
 	if err != nil {
 		return nil, err
 	}
@@ -102,7 +123,7 @@ func (c DynamoV1) QueryWithContext(_ aws.Context, in *ddb1.QueryInput, _ ...requ
 		return *v.S, true
 	}, forward, aws.Int64Value(in.Limit), aws.BoolValue(in.ConsistentRead))
 	if err != nil {
-		return nil, err
+		return nil, typed1(err)
 	}
 	out := &ddb1.QueryOutput{}
 	for _, it := range items {
@@ -166,7 +187,7 @@ func (c DynamoV2) GetItem(_ context.Context, in *ddb2.GetItemInput, _ ...func(*d
 	}
 	it, err := c.D.Get(sv(in.TableName), id, cr, bv(in.ConsistentRead))
 	if err != nil {
-		return nil, err
+		return nil, typed2(err)
 	}
 	if it == nil {
 		return &ddb2.GetItemOutput{}, nil
@@ -182,6 +203,9 @@ func (c DynamoV2) PutItem(_ context.Context, in *ddb2.PutItemInput, _ ...func(*d
 	err = c.D.Put(sv(in.TableName), Item{ID: id, Created: cr, Attrs: in.Item}, sv(in.ConditionExpression), in.ExpressionAttributeNames)
 	if errors.Is(err, ErrConditionalCheckFailed) {
 		return nil, &types2.ConditionalCheckFailedException{Message: aws.String("The conditional request failed")}
+	}
+	if err = typed2(err); err != nil {
+		return nil, err
 	}
 	if err != nil {
 		return nil, err
@@ -206,7 +230,7 @@ func (c DynamoV2) Query(_ context.Context, in *ddb2.QueryInput, _ ...func(*ddb2.
 		return v.Value, true
 	}, forward, limit, bv(in.ConsistentRead))
 	if err != nil {
-		return nil, err
+		return nil, typed2(err)
 	}
 	out := &ddb2.QueryOutput{}
 	for _, it := range items {
